@@ -115,11 +115,26 @@ Proof.
   apply frame_upd_conn, benign_set_syn. discriminate.
 Qed.
 
-Lemma frame_link_send w s d m : frame w (link_send w s d m).
+Lemma frame_link_enqueue w s d m : frame w (link_enqueue w s d m).
 Proof.
-  unfold link_send. destruct (find _ _); [|apply frame_syn_gone].
+  unfold link_enqueue. destruct (find _ _); [|apply frame_syn_gone].
   destruct (cut_from _ _); [apply frame_syn_gone|apply frame_set_links].
 Qed.
+
+Lemma frame_fold_syn_gone (l : list wmsg) : forall w, frame w (fold_left syn_gone l w).
+Proof.
+  induction l as [|x l IH]; intros w; cbn [fold_left]; [apply frame_refl|].
+  eapply frame_trans; [apply frame_syn_gone|apply IH].
+Qed.
+
+Lemma frame_rand_send w s d : frame w (rand_send w s d).
+Proof.
+  unfold rand_send. destruct (find _ _); [|apply frame_refl].
+  eapply frame_trans; [apply frame_set_links|apply frame_fold_syn_gone].
+Qed.
+
+Lemma frame_link_send w s d m : frame w (link_send w s d m).
+Proof. unfold link_send. eapply frame_trans; [apply frame_rand_send|apply frame_link_enqueue]. Qed.
 
 Lemma frame_loop_send w h m : frame w (loop_send w h m).
 Proof. apply frame_upd_host. reflexivity. Qed.
@@ -586,6 +601,7 @@ Proof.
     destruct (do_loop_step w h) as [w1 p]. cbn in *. destruct p; exact D.
   - exact H.
   - exact H.
+  - now apply on_pair_winv.
 Qed.
 
 Lemma init_winv n cp lo hi : winv (init n cp lo hi).
@@ -709,16 +725,62 @@ Proof.
   intros h. unfold client_entry, has_sk. cbn. apply andb_false_r.
 Qed.
 
-Lemma conns_link_send_seg w s d c sd p pk :
-  w_conns (link_send w s d {| m_cid := c; m_body := WSeg sd p; m_parked := pk |}) = w_conns w.
+(* what the network does to the connection table: it only marks SYNs as gone *)
+Definition syn_only (w w' : world) : Prop :=
+  forall c k, get_conn w c = Some k ->
+    exists k', get_conn w' c = Some k' /\ (k' = k \/ k' = set_syn k SynGone).
+
+Lemma syn_only_refl w : syn_only w w.
+Proof. intros c k H. exists k. auto. Qed.
+
+Lemma syn_only_trans w1 w2 w3 : syn_only w1 w2 -> syn_only w2 w3 -> syn_only w1 w3.
 Proof.
-  unfold link_send. destruct (find _ _); [|reflexivity]. destruct (cut_from _ _); reflexivity.
+  intros A B c k H. destruct (A c k H) as (k2 & H2 & E2). destruct (B c k2 H2) as (k3 & H3 & E3).
+  exists k3. split; [exact H3|]. destruct E2 as [->| ->], E3 as [->| ->]; auto.
 Qed.
 
-Lemma conns_send_abandon_rst w c k : w_conns (send_abandon_rst w c k) = w_conns w.
+Lemma syn_only_conns w w' : w_conns w' = w_conns w -> syn_only w w'.
+Proof. intros E c k H. exists k. unfold get_conn in *. rewrite E. auto. Qed.
+
+Lemma syn_only_syn_gone w m : syn_only w (syn_gone w m).
 Proof.
-  unfold send_abandon_rst. destruct (S.lo (k_sys k)); [reflexivity|].
-  destruct (k_dhost k); [apply conns_link_send_seg|reflexivity].
+  unfold syn_gone. destruct (m_body m); [|apply syn_only_refl]. intros c k H.
+  destruct (N.eq_dec (m_cid m) c) as [->|Hne].
+  - exists (set_syn k SynGone). split; [|now right]. unfold get_conn, upd_conn in *. cbn.
+    apply (nth_upd_nth_same _ (fun k0 => set_syn k0 SynGone)). exact H.
+  - exists k. split; [|now left]. unfold get_conn, upd_conn in *. cbn. rewrite nth_upd_nth_other; [exact H|].
+    unfold nat_of. intros E. apply N2Nat.inj in E. congruence.
+Qed.
+
+Lemma syn_only_fold_syn_gone (l : list wmsg) : forall w, syn_only w (fold_left syn_gone l w).
+Proof.
+  induction l as [|x l IH]; intros w; cbn [fold_left]; [apply syn_only_refl|].
+  eapply syn_only_trans; [apply syn_only_syn_gone|apply IH].
+Qed.
+
+Lemma syn_only_rand_send w s d : syn_only w (rand_send w s d).
+Proof.
+  unfold rand_send. destruct (find _ _); [|apply syn_only_refl].
+  eapply syn_only_trans; [|apply syn_only_fold_syn_gone]. apply syn_only_conns. reflexivity.
+Qed.
+
+Lemma conns_link_enqueue_seg w s d c sd p pk :
+  w_conns (link_enqueue w s d {| m_cid := c; m_body := WSeg sd p; m_parked := pk |}) = w_conns w.
+Proof.
+  unfold link_enqueue. destruct (find _ _); [|reflexivity]. destruct (cut_from _ _); reflexivity.
+Qed.
+
+Lemma syn_only_link_send_seg w s d c sd p pk :
+  syn_only w (link_send w s d {| m_cid := c; m_body := WSeg sd p; m_parked := pk |}).
+Proof.
+  unfold link_send. eapply syn_only_trans; [apply syn_only_rand_send|].
+  apply syn_only_conns, conns_link_enqueue_seg.
+Qed.
+
+Lemma syn_only_send_abandon_rst w c k : syn_only w (send_abandon_rst w c k).
+Proof.
+  unfold send_abandon_rst. destruct (S.lo (k_sys k)); [apply syn_only_conns; reflexivity|].
+  destruct (k_dhost k); [apply syn_only_link_send_seg|apply syn_only_refl].
 Qed.
 
 Lemma cancel_no_entry w c k :
@@ -726,10 +788,16 @@ Lemma cancel_no_entry w c k :
   exists k', get_conn (fst (do_cancel w c)) c = Some k' /\ k_fut k' = FutCancelled /\
              forall h, client_entry h k' = false.
 Proof.
-  intros Hc Hf. unfold do_cancel. rewrite Hc, Hf. cbn [fst]. unfold get_conn in *.
-  rewrite conns_send_abandon_rst. unfold upd_conn. cbn.
-  erewrite nth_upd_nth_same by exact Hc. eexists. split; [reflexivity|]. split; [reflexivity|].
-  intros h. unfold client_entry, has_sk. cbn. apply andb_false_r.
+  intros Hc Hf. unfold do_cancel. rewrite Hc, Hf. cbn [fst].
+  set (F := fun k' : conn => set_fut (kill_client k') FutCancelled).
+  assert (G : get_conn (upd_conn w c F) c = Some (F k)).
+  { unfold get_conn, upd_conn in *. cbn. now apply nth_upd_nth_same. }
+  match goal with |- context [send_abandon_rst ?w1 c ?k1] =>
+    destruct (syn_only_send_abandon_rst w1 c k1 c (F k) G) as (k' & G' & E) end.
+  exists k'. split; [exact G'|].
+  assert (P : k_fut (F k) = FutCancelled /\ forall h, client_entry h (F k) = false).
+  { split; [reflexivity|]. intros h. unfold client_entry, has_sk. cbn. apply andb_false_r. }
+  destruct E as [->| ->]; [exact P|]. destruct P as [P1 P2]. split; [exact P1|]. intros h. apply (P2 h).
 Qed.
 
 Lemma syn_arrive_refused w d c k hs :
@@ -823,38 +891,173 @@ Proof.
   cbn [w_conns set_hosts upd_host w_cap] in G. rewrite G. reflexivity.
 Qed.
 
-(* connect across a partitioned direction: the SYN is dropped, refused at once *)
-Lemma connect_partitioned_refused w h sid d dport l0 :
+(* connect across an explicitly partitioned direction: the SYN is dropped, refused at once --
+   whatever the coins of the random link failure say (they repair only what they broke) *)
+Lemma links_syn_gone w m : w_links (syn_gone w m) = w_links w.
+Proof. unfold syn_gone. destruct (m_body m); reflexivity. Qed.
+
+Lemma links_fold_syn_gone (l : list wmsg) : forall w, w_links (fold_left syn_gone l w) = w_links w.
+Proof. induction l as [|x l IH]; intros w; cbn [fold_left]; [reflexivity|]. rewrite IH. apply links_syn_gone. Qed.
+
+Lemma find_upd_first {T} (P : T -> bool) (y : T) : forall l x,
+  find P l = Some x -> P y = true -> find P (upd_first P (fun _ => y) l) = Some y.
+Proof.
+  induction l as [|z l IH]; intros x Hf Hy; cbn in *; [discriminate|].
+  destruct (P z) eqn:Hz; cbn; [rewrite Hy; reflexivity|]. rewrite Hz. eapply IH; eauto.
+Qed.
+
+Lemma rand_link_ends w l : l_a (fst (rand_link w l)) = l_a l /\ l_b (fst (rand_link w l)) = l_b l.
+Proof.
+  unfold rand_link. destruct (l_coins l) as [|[rp rr] cs]; [auto|].
+  destruct ((healthy_ab l || healthy_ba l) && rp); [auto|]. destruct ((l_rand_ab l || l_rand_ba l) && rr); auto.
+Qed.
+
+Lemma rand_link_on_link w l x y : on_link (fst (rand_link w l)) x y = on_link l x y.
+Proof. unfold on_link. destruct (rand_link_ends w l) as [-> ->]. reflexivity. Qed.
+
+Lemma rand_link_keeps_explicit_cut w l src :
+  cut_from l src = true -> rand_from l src = false -> cut_from (fst (rand_link w l)) src = true.
+Proof.
+  unfold cut_from, rand_from. intros Hc Hr. destruct (rand_link_ends w l) as [Ea _]. rewrite Ea.
+  unfold rand_link. destruct (l_coins l) as [|[rp rr] cs]; [exact Hc|].
+  destruct ((healthy_ab l || healthy_ba l) && rp); [|destruct ((l_rand_ab l || l_rand_ba l) && rr)];
+    cbn [fst l_cut_ab l_cut_ba set_sent set_rands set_cuts set_coins]; destruct (N.eqb src (l_a l));
+    rewrite ?Hc, ?Hr; reflexivity.
+Qed.
+
+Lemma find_rand_send w s d l0 :
+  find (fun l => on_link l s d) (w_links w) = Some l0 ->
+  find (fun l => on_link l s d) (w_links (rand_send w s d)) = Some (fst (rand_link w l0)).
+Proof.
+  intros Hf. unfold rand_send. rewrite Hf, links_fold_syn_gone. cbn [w_links set_links].
+  eapply (find_upd_first (fun l => on_link l s d)); [exact Hf|].
+  rewrite rand_link_on_link. apply find_some in Hf. exact (proj2 Hf).
+Qed.
+
+Lemma connect_cut_refused w h sid d dport l0 :
   assign_port w h <> None -> d <> h -> (d <? nhosts w)%N = true ->
-  find (fun l => on_link l h d) (w_links w) = Some l0 -> cut_from l0 h = true ->
+  find (fun l => on_link l h d) (w_links w) = Some l0 ->
+  (forall w', cut_from (fst (rand_link w' l0)) h = true) ->
   snd (do_connect w h sid (IpHost d, dport)) = RRefused.
 Proof.
   intros Ha Hne Hd Hf Hcut. unfold do_connect. destruct (assign_port w h) as [[port cur]|]; [|congruence].
   cbn [is_loop orb]. rewrite Hd.
   assert (E : ip_eqb (IpHost d) (IpHost h) = false) by (cbn; now apply N.eqb_neq).
   rewrite E. cbn [upd_host set_hosts w_conns w_streams].
-  unfold link_send. cbn [w_links set_streams set_conns set_hosts upd_host]. rewrite Hf, Hcut. unfold syn_gone. cbn [m_body m_cid].
-  match goal with |- context [upd_conn (set_streams (set_conns ?w1 _) ?st) _ ?F] =>
-    pose proof (get_conn_new w1 {| k_host := h; k_local := (IpHost h, port); k_remote := (IpHost d, dport);
-                                    k_dhost := Some d; k_syn := SynFlight; k_fut := FutPending; k_srv := None;
-                                    k_sys := sys_connecting (w_cap w) false |} st F) as G end.
-  cbn [w_conns set_hosts upd_host w_cap] in G. rewrite G. reflexivity.
+  set (k := {| k_host := h; k_local := (IpHost h, port); k_remote := (IpHost d, dport);
+               k_dhost := Some d; k_syn := SynFlight; k_fut := FutPending; k_srv := None;
+               k_sys := sys_connecting (w_cap w) false |}).
+  match goal with |- context [link_send ?ww h d ?mm] => set (w2 := ww); set (m0 := mm) end.
+  set (c := N.of_nat (length (w_conns w))) in *.
+  assert (G2 : get_conn w2 c = Some k).
+  { unfold get_conn, w2, c. cbn. rewrite nat_of_len, nth_error_app2 by lia. now rewrite Nat.sub_diag. }
+  destruct (syn_only_rand_send w2 h d c k G2) as (k' & G' & Ek).
+  assert (Hf2 : find (fun l => on_link l h d) (w_links w2) = Some l0) by exact Hf.
+  pose proof (find_rand_send w2 h d l0 Hf2) as Hf3.
+  unfold link_send, link_enqueue. rewrite Hf3, (Hcut w2).
+  unfold syn_gone. cbn [m_body m_cid m0].
+  assert (G3 : get_conn (upd_conn (rand_send w2 h d) c (fun k0 => set_syn k0 SynGone)) c = Some (set_syn k' SynGone)).
+  { unfold get_conn, upd_conn in *. cbn. apply (nth_upd_nth_same _ (fun k0 => set_syn k0 SynGone)). exact G'. }
+  rewrite G3. reflexivity.
+Qed.
+
+Lemma connect_partitioned_refused w h sid d dport l0 :
+  assign_port w h <> None -> d <> h -> (d <? nhosts w)%N = true ->
+  find (fun l => on_link l h d) (w_links w) = Some l0 -> cut_from l0 h = true -> rand_from l0 h = false ->
+  snd (do_connect w h sid (IpHost d, dport)) = RRefused.
+Proof.
+  intros Ha Hne Hd Hf Hcut Hrand. eapply connect_cut_refused; eauto.
+  intros w'. now apply rand_link_keeps_explicit_cut.
+Qed.
+
+(* the connect whose SYN makes the fail_rate coin come up: its direction is healthy, breaks, and
+   the SYN is dropped with it *)
+Lemma rand_link_breaks_healthy w l src rr cs :
+  l_coins l = (true, rr) :: cs -> cut_from l src = false -> held_from l src = false ->
+  cut_from (fst (rand_link w l)) src = true.
+Proof.
+  unfold cut_from, held_from, rand_link, healthy_ab, healthy_ba. intros Hc Hcut Hheld. rewrite Hc.
+  destruct (N.eqb src (l_a l)) eqn:Es; rewrite Hcut, Hheld in *; cbn [negb andb orb].
+  - cbn [fst l_a set_sent set_rands set_cuts set_coins l_cut_ab]. rewrite Es. reflexivity.
+  - rewrite orb_true_r. cbn [andb fst l_a set_sent set_rands set_cuts set_coins l_cut_ba]. rewrite Es. reflexivity.
+Qed.
+
+Lemma connect_breaking_refused w h sid d dport l0 rr cs :
+  assign_port w h <> None -> d <> h -> (d <? nhosts w)%N = true ->
+  find (fun l => on_link l h d) (w_links w) = Some l0 ->
+  l_coins l0 = (true, rr) :: cs -> cut_from l0 h = false -> held_from l0 h = false ->
+  snd (do_connect w h sid (IpHost d, dport)) = RRefused.
+Proof.
+  intros Ha Hne Hd Hf Hc Hcut Hheld. eapply connect_cut_refused; eauto.
+  intros w'. eapply rand_link_breaks_healthy; eauto.
+Qed.
+
+(* a SYN in flight on a direction that the coin breaks is dropped: it leaves the link and its
+   connect is refused at the next poll *)
+Lemma fold_syn_gone_marks (l : list wmsg) : forall w c k,
+  get_conn w c = Some k ->
+  (k_syn k = SynGone \/ exists m, In m l /\ m_body m = WSyn /\ m_cid m = c) ->
+  exists k', get_conn (fold_left syn_gone l w) c = Some k' /\ k_syn k' = SynGone /\ k_fut k' = k_fut k.
+Proof.
+  induction l as [|x l IH]; intros w c k Hc Hcase; cbn [fold_left].
+  - destruct Hcase as [E|(m & [] & _)]. exists k. auto.
+  - destruct (syn_only_syn_gone w x c k Hc) as (k1 & H1 & E1).
+    assert (F1 : k_fut k1 = k_fut k) by (destruct E1 as [->| ->]; reflexivity).
+    destruct Hcase as [E|(m & [->|Hin] & Hb & Hm)].
+    + destruct (IH (syn_gone w x) c k1 H1) as (k' & G1 & G2 & G3).
+      { left. destruct E1 as [->| ->]; [exact E|reflexivity]. }
+      exists k'. split; [exact G1|]. split; [exact G2|congruence].
+    + assert (H2 : get_conn (syn_gone w m) c = Some (set_syn k SynGone)).
+      { unfold syn_gone. rewrite Hb, Hm. unfold get_conn, upd_conn in *. cbn.
+        apply (nth_upd_nth_same _ (fun k0 => set_syn k0 SynGone)). exact Hc. }
+      destruct (IH (syn_gone w m) c (set_syn k SynGone) H2) as (k' & G1 & G2 & G3); [left; reflexivity|].
+      exists k'. split; [exact G1|]. split; [exact G2|exact G3].
+    + destruct (IH (syn_gone w x) c k1 H1) as (k' & G1 & G2 & G3).
+      { right. exists m. auto. }
+      exists k'. split; [exact G1|]. split; [exact G2|congruence].
+Qed.
+
+Lemma rand_break_refuses w s d l0 rr cs m k :
+  find (fun l => on_link l s d) (w_links w) = Some l0 ->
+  l_coins l0 = (true, rr) :: cs ->
+  In m (l_sent l0) -> m_body m = WSyn -> breaks w l0 m = true ->
+  get_conn w (m_cid m) = Some k -> k_fut k = FutPending ->
+  (exists l1, find (fun l => on_link l s d) (w_links (rand_send w s d)) = Some l1 /\ ~ In m (l_sent l1)) /\
+  snd (do_poll (rand_send w s d) (m_cid m)) = RRefused.
+Proof.
+  intros Hf Hc Hin Hb Hbr Hk Hfut.
+  assert (Hh : (healthy_ab l0 || healthy_ba l0) && true = true).
+  { rewrite andb_true_r. unfold breaks in Hbr. destruct (from_host w (l_a l0) m); rewrite Hbr; [reflexivity|apply orb_true_r]. }
+  split.
+  - exists (fst (rand_link w l0)). split; [now apply find_rand_send|].
+    unfold rand_link. rewrite Hc, Hh. cbn [fst l_sent set_sent]. intros Hin'. apply filter_In in Hin' as [_ E].
+    rewrite Hbr in E. discriminate.
+  - assert (Hd : In m (snd (rand_link w l0))).
+    { unfold rand_link. rewrite Hc, Hh. cbn [snd]. apply filter_In. auto. }
+    unfold rand_send. rewrite Hf.
+    match goal with |- context [fold_left syn_gone ?l ?w1] =>
+      destruct (fold_syn_gone_marks l w1 (m_cid m) k) as (k' & G1 & G2 & G3) end.
+    + exact Hk.
+    + right. exists m. auto.
+    + unfold do_poll. rewrite G1, G3, Hfut, G2. reflexivity.
 Qed.
 
 (* ---- the RST of an abandoned connect removes the acceptor's entry (fix 48e101e) ------------------ *)
 
-Lemma conns_flush_fold (k : conn) c (out : list (S.side * S.pkt)) : forall w1,
-  w_conns (fold_left (fun (w' : world) (sp : S.side * S.pkt) =>
+Lemma syn_only_flush_fold (k : conn) c (out : list (S.side * S.pkt)) : forall w1,
+  syn_only w1 (fold_left (fun (w' : world) (sp : S.side * S.pkt) =>
      let m := {| m_cid := c; m_body := WSeg (fst sp) (snd sp); m_parked := false |} in
      if S.lo (k_sys k) then loop_send w' (k_host k) m
      else match msg_src w' m, msg_dst w' m with
           | Some s, Some d => link_send w' s d m
           | _, _ => w'
-          end) out w1) = w_conns w1.
+          end) out w1).
 Proof.
-  induction out as [|sp out IH]; intros w1; cbn [fold_left]; [reflexivity|]. rewrite IH.
-  destruct (S.lo (k_sys k)); [reflexivity|].
-  destruct (msg_src _ _); [|reflexivity]. destruct (msg_dst _ _); [|reflexivity]. apply conns_link_send_seg.
+  induction out as [|sp out IH]; intros w1; cbn [fold_left]; [apply syn_only_refl|].
+  eapply syn_only_trans; [|apply IH].
+  destruct (S.lo (k_sys k)); [apply syn_only_conns; reflexivity|].
+  destruct (msg_src _ _); [|apply syn_only_refl]. destruct (msg_dst _ _); [|apply syn_only_refl].
+  apply syn_only_link_send_seg.
 Qed.
 
 Lemma abandon_rst_resets_acceptor w d c k pk :
@@ -866,11 +1069,18 @@ Proof.
   set (f := fun k0 : conn => set_sys k0 (S.deliver1 (k_sys k0) (S.other S.A) S.PRst)).
   assert (H1 : get_conn (upd_conn w c f) c = Some (f k)).
   { unfold get_conn, upd_conn in *. cbn. now apply nth_upd_nth_same. }
-  rewrite H1. unfold get_conn. rewrite conns_flush_fold. unfold upd_conn. cbn [w_conns set_conns].
-  unfold get_conn in H1. erewrite nth_upd_nth_same by exact H1.
-  eexists. split; [reflexivity|]. intros h. unfold server_entry. cbn [k_srv set_sys f].
-  destruct (k_srv k) as [[[d0 l] p]|]; [|reflexivity].
-  assert (E : has_sk (S.set_wire (S.deliver1 (k_sys k) S.B S.PRst) []) S.B = false).
-  { unfold has_sk, S.deliver1, S.recv_ep. cbn. destruct (S.lo (k_sys k)); reflexivity. }
-  unfold f. cbn [k_sys set_sys S.other]. rewrite E. apply andb_false_r.
+  rewrite H1.
+  set (g := fun k' : conn => set_sys k' (S.set_wire (k_sys k') [])).
+  assert (H2 : get_conn (upd_conn (upd_conn w c f) c g) c = Some (g (f k))).
+  { unfold get_conn, upd_conn in *. cbn. now apply nth_upd_nth_same. }
+  match goal with |- context [fold_left ?F ?out ?w1] =>
+    destruct (syn_only_flush_fold (f k) c out w1 c (g (f k)) H2) as (k' & G' & E) end.
+  exists k'. split; [exact G'|].
+  assert (P : forall h, server_entry h (g (f k)) = false).
+  { intros h. unfold server_entry, g, f. cbn [k_srv set_sys k_sys S.other].
+    destruct (k_srv k) as [[[d0 l] p]|]; [|reflexivity].
+    assert (E0 : has_sk (S.set_wire (S.deliver1 (k_sys k) S.B S.PRst) []) S.B = false).
+    { unfold has_sk, S.deliver1, S.recv_ep. cbn. destruct (S.lo (k_sys k)); reflexivity. }
+    rewrite E0. apply andb_false_r. }
+  destruct E as [->| ->]; [exact P|]. intros h. apply (P h).
 Qed.
